@@ -335,6 +335,10 @@ class RefPeg:
                     for end, d in res.items():
                         if end == mp:
                             noelem = Or(noelem, d.c)
+                            if plus and it == 0:
+                                # e+ is e e*: an element that succeeds without consuming anything
+                                # satisfies the "one" (and ends the repetition)
+                                self.add(out, mp, rseq(ROut(And(o0.c, mc), o0.fp, o0.val, o0.ne), d))
                             continue
                         self.add(nxt, end, rseq(ROut(And(o0.c, mc), o0.fp, o0.val, o0.ne), d))
                     stop = Or(stop, And(mc, noelem))
